@@ -289,9 +289,11 @@ pub fn gen(seed: u64, tier: &str) -> Vec<String> {
         let files = random_files(&mut rng, k);
         push(&mut lines, format!("build {}", fmt_files(&files)));
     }
-    if thorough {
-        // many files: header and name table far larger than one padding block
-        for k in [257usize, 1200] {
+    {
+        // many files: header and name table far larger than one padding block; more than 255
+        // files (count needs both header bytes)
+        let ks: &[usize] = if thorough { &[257, 1200] } else { &[257] };
+        for &k in ks {
             let files: Vec<(String, Vec<u8>)> = (0..k)
                 .map(|i| (format!("f{:x}", i), rng.bytes((i * 7) % 40)))
                 .collect();
